@@ -575,10 +575,49 @@ def gen_tdivfull(rng):
     return [f"tdivfull {x} {y}"]
 
 
+def check_offset_from_timedelta(us):
+    """Offset.from_timedelta(timedelta(microseconds=us)): the whole seconds of the length of time, truncated towards zero
+    (as documented), or ValueError when the length of time lies outside +/- 18 hours - plain integers as reference"""
+    import datetime
+    from pyoda_time import Offset
+    td = datetime.timedelta(microseconds=us)
+    lim = 18 * 3600 * 10**6
+    want = ("err", "ValueError") if abs(us) > lim else ("ok", (abs(us) // 10**6) * (1 if us >= 0 else -1))
+    try:
+        o = Offset.from_timedelta(td)
+        got = ("ok", o.seconds)
+        extra = (o.milliseconds, o.ticks, o.nanoseconds)
+    except Exception as e:  # noqa: BLE001
+        got = ("err", type(e).__name__)
+        extra = None
+    if got != want:
+        return {"key": "offset-from-timedelta", "what": f"Offset.from_timedelta({td!r}) [= {us} us] gave {got}, expected {want}"}
+    if extra is not None and extra != (want[1] * 1000, want[1] * 10**7, want[1] * 10**9):
+        return {"key": "offset-accessors", "what": f"Offset.from_timedelta({td!r}): milliseconds/ticks/nanoseconds = {extra} for {want[1]} s"}
+    if got[0] == "ok" and Offset.from_timedelta(-td).seconds != -want[1] and abs(us) <= lim:
+        return {"key": "offset-from-timedelta", "what": f"Offset.from_timedelta(-{td!r}) is not the negation of from_timedelta({td!r})"}
+    return None
+
+
+def gen_offset_timedeltas(ctx):
+    rng = ctx.rng
+    lim = 18 * 3600 * 10**6
+    out = set()
+    for base in (0, 10**6, 3600 * 10**6, 12345 * 10**6, lim - 10**6, lim):
+        for d in (0, 1, 2, 499_999, 500_000, 500_001, 999_999, 10**6, 10**6 + 1, 10**6 - 1):
+            for sg in (1, -1):
+                out.update([sg * (base + d), sg * (base - d)])
+    for _ in range(ctx.scale(400, 20_000)):
+        out.add(rng.randint(-lim - 10**7, lim + 10**7))
+        out.add(rng.choice([1, -1]) * rng.randint(0, 5 * 10**6))
+    return sorted(out)
+
+
 def run(ctx):
     n = ctx.scale(50_000, 3_000_000)
     ops = gen_ops(ctx, n)
     ctx.correspond("elapsed.ops", ops, impl, oracle=oracle, neighbours=neighbours)
+    ctx.check_cases("offset.from_timedelta", gen_offset_timedeltas(ctx), check_offset_from_timedelta)
     translator_selftest(ctx)
 
 
@@ -621,4 +660,6 @@ def translator_selftest(ctx):
 
 
 def replay_op(op, failure):
+    if failure.get("source", "") == "oracle:offset.from_timedelta":
+        return check_offset_from_timedelta(int(op))
     return oracle(op.split(" "))
